@@ -20,6 +20,24 @@ CLAIMED = {
         note="Crash = exception injected in place of a Python-level file operation, writes split per line with torn variants; durability (fsync, directory entries) not modelled; kconfgen docs/report formats not driven.",
         design_ref="DESIGN.md section 3, C13",
     ),
+    "C01": dict(
+        technique="TLA+ evaluator of the Kconfig language description (spec/KEval.tla: flattening of inherited dependencies + precedence rules); TLC enumerates every configuration of lattice and generated programs (spec/MC_Eval.tla), checks HiddenUserInert on the model and compares value / visibility / assignable / sdkconfig line of every option with the real implementation",
+        text="Model checking: for each program TLC enumerates all assignments of candidate user values and choice picks, evaluates the documented precedence (set > user value if visible and in range > set default > first default; select/imply for bools; inherited depends on / if / menu / visible if) and the inertness of hidden user values, and compares every option's value, visibility, assignable set and written line with what the real Kconfig object reports for the same assignment.",
+        note="Programs <= 8 options from the F-prec/F-nest/F-choice lattices plus seeded generated programs; literals from a fixed universe with numeric tables built by Python's int(); float type and option env not covered.",
+        design_ref="DESIGN.md section 3, C01",
+    ),
+    "C02": dict(
+        technique="TLA+ model of sdkconfig writing and loading (spec/KStore.tla: Render with default markers, Load with deferred choice members and replace semantics); TLC checks the round trip on the model for every configuration (spec/MC_Store.tla) and compares with the real write_config / load_config into a fresh instance / write_config",
+        text="Model checking: for every configuration of every program TLC evaluates Render, Load(Render) and Render again on the specification and compares them with the lines the real implementation wrote, the values after reloading into a fresh instance and the second write; the property clauses (values equal, assignments equal, bytes equal, no diagnostics) are evaluated by TLC on the observations.",
+        note="Configurations are (user values, picks) states of <= 8-option programs; histories through merges of hand-written files and the deprecated block are covered by C11/C08 once built; byte identity is compared on the real files.",
+        design_ref="DESIGN.md section 3, C02",
+    ),
+    "C10": dict(
+        technique="TLA+ model of the minimal-config writer (spec/KStore.tla: MinLines, StrDefault, SelFromDefaults) and Load; TLC checks MinReconstructs on the model for every configuration (spec/MC_Store.tla) and compares with the real write_min_config (4 variants) reloaded into fresh instances",
+        text="Model checking: for every configuration TLC computes the minimal lines and the values after loading them on the specification, compares both with the real write_min_config output and the values of a fresh instance that loaded it, and evaluates MinReconstructs and the labels/normalise variant equality on the observations.",
+        note="Same program families and bounds as C02; kconfgen's wrapper (header, ESP_IDF_KCONFIG_MIN_LABELS) is exercised by C13's savedefconfig flow only for rewriting, not for reconstruction.",
+        design_ref="DESIGN.md section 3, C10",
+    ),
 }
 
 REASON_PENDING = "check not built yet in this session (planned in DESIGN.md section 3); not claimed until its TLA+ model and conformance harness exist"
